@@ -86,6 +86,8 @@ def call(I, name, args, kwargs, fr):
             return v.fields["__id"]
         if isinstance(v, VRef):
             return VInt(v.ref)
+        if isinstance(v, VNone):
+            return VInt(-1)
         raise Unsupported("opaque_id of %r" % (v,))
     if name == "slist":
         # list-of-int specification value: slist() empty, slist(x) singleton
